@@ -4,6 +4,7 @@ import (
 	"bytes"
 	"encoding/json"
 	"errors"
+	"fmt"
 )
 
 // ToJSONRaw 序列化。save 参数仅为兼容保留: 循环引用检测按容器本体(而不是 *VMValue 包装)进行，
@@ -219,6 +220,12 @@ func (v *VMValue) UnmarshalJSON(input []byte) error {
 		}
 		err := json.Unmarshal(input, &v1)
 		if err == nil {
+			for _, i := range v1.Value.List {
+				if i == nil {
+					// null 元素会变成空指针，之后的任何操作都会崩溃
+					return errors.New("值错误: 数组元素不能为null")
+				}
+			}
 			v.Value = NewArrayValRaw(v1.Value.List).Value
 		}
 		return err
@@ -261,8 +268,11 @@ func (v *VMValue) UnmarshalJSON(input []byte) error {
 		if err == nil {
 			if val, ok := builtinValues[v1.Value.Name]; ok {
 				v.Value = val.Value
+				return nil
 			}
-			return nil
+			// 找不到对应的内置函数(例如已被移除，或是绑定了对象的方法，其绑定对象没有被序列化)
+			// 此时若返回一个 Value 为 nil 的函数对象，之后的任何操作都会崩溃
+			return errors.New("值错误: 未知的内置函数 " + v1.Value.Name)
 		}
 		return err
 	case VMTypeNativeObject:
@@ -280,10 +290,15 @@ func (v *VMValue) UnmarshalJSON(input []byte) error {
 		}
 		return err
 	}
-	return nil
+	// 未知的类型(包括仅供内部使用的类型)不能还原为可用的值
+	return fmt.Errorf("值错误: 未知的类型 %d", v0.TypeId)
 }
 
 func VMValueFromJSON(data []byte) (*VMValue, error) {
+	if bytes.Equal(bytes.TrimSpace(data), []byte("null")) {
+		// json 的 null 不会调用 UnmarshalJSON，得到的是一个没有内容的整数值
+		return nil, errors.New("值错误: null 不是合法的值")
+	}
 	var v VMValue
 	err := json.Unmarshal(data, &v)
 	return &v, err
